@@ -1,9 +1,9 @@
 package main
 
 import (
+	"io"
 	"bytes"
 	"fmt"
-	"io"
 	"os"
 
 	"github.com/muktihari/fit/decoder"
@@ -65,7 +65,7 @@ func c04(args []string) {
 			_ = why
 			continue
 		}
-		region := len(b) - 14                 // message bytes + trailing CRC
+		region := len(b) - 14 // message bytes + trailing CRC
 		for bit := 0; bit < region*8; bit++ { // every single bit
 			m := append([]byte(nil), b...)
 			m[14+bit/8] ^= 1 << uint(bit%8)
@@ -109,6 +109,9 @@ func c04(args []string) {
 				}
 			default:
 				suf = []byte{0}
+			}
+			if len(suf) == 0 { // a mutation can cut the file down to nothing: no suffix, nothing to check
+				continue
 			}
 			stat("oracle_suffixes", 1)
 			n, err, p := checkIntegrity(append(append([]byte(nil), b...), suf...))
@@ -162,42 +165,42 @@ func c04(args []string) {
 		if i < 0 {
 			b = sweep[i+len(sweep)]
 		} else {
-			switch r.intn(8) {
-			case 0:
-				b = r.bytes(r.intn(40))
-			case 1:
-				b = pool[r.intn(len(pool))]
-			case 2:
-				b = r.mutate(pool[r.intn(len(pool))])
-			case 3: // header CRC zeroed / wrong, 12-byte headers, zero data size
-				ec := r.encCfg()
-				ec.protoVer = proto.V2
-				out, err := encodeFit(ec, r.genFit(mesgGenCfg{wellFormed: true, maxFields: 4}, 1+r.intn(3), false))
-				if err != nil {
-					continue
-				}
-				b = out
-				if len(b) > 14 && b[0] == 14 {
-					switch r.intn(4) {
-					case 0:
-						b[12], b[13] = 0, 0
-					case 1:
-						b[12] ^= 1
-					case 2:
-						b[4], b[5], b[6], b[7] = 0, 0, 0, 0
-					}
-				}
-			default:
-				ec, files := r.genChain(true)
-				out, _, err := encodeChain(ec, files)
-				if err != nil || len(out) == 0 {
-					continue
-				}
-				b = out
-				if r.chance(1, 3) {
-					b = r.mutate(b)
+		switch r.intn(8) {
+		case 0:
+			b = r.bytes(r.intn(40))
+		case 1:
+			b = pool[r.intn(len(pool))]
+		case 2:
+			b = r.mutate(pool[r.intn(len(pool))])
+		case 3: // header CRC zeroed / wrong, 12-byte headers, zero data size
+			ec := r.encCfg()
+			ec.protoVer = proto.V2
+			out, err := encodeFit(ec, r.genFit(mesgGenCfg{wellFormed: true, maxFields: 4}, 1+r.intn(3), false))
+			if err != nil {
+				continue
+			}
+			b = out
+			if len(b) > 14 && b[0] == 14 {
+				switch r.intn(4) {
+				case 0:
+					b[12], b[13] = 0, 0
+				case 1:
+					b[12] ^= 1
+				case 2:
+					b[4], b[5], b[6], b[7] = 0, 0, 0, 0
 				}
 			}
+		default:
+			ec, files := r.genChain(true)
+			out, _, err := encodeChain(ec, files)
+			if err != nil || len(out) == 0 {
+				continue
+			}
+			b = out
+			if r.chance(1, 3) {
+				b = r.mutate(b)
+			}
+		}
 		}
 		n, err, p := checkIntegrity(b)
 		// the verdict does not depend on how the reader hands the bytes over (all at once together with io.EOF / one byte at a time)
